@@ -427,7 +427,7 @@ pub fn requests(prop: &str, fl: &str, g: &GraphSpec, thorough: bool, rng: Option
                 v += 1;
                 if v % 3 != 0 {
                     let (kind, tail) = rest.split_once(' ').unwrap();
-                    *line = format!("search {kind}~{} {tail}", v % 192);
+                    *line = format!("search {kind}~{} {tail}", v % 384);
                 }
             }
         }
